@@ -195,7 +195,7 @@ for _p, _txt in {
     }
 
 PROPS["C16"]["govc"] += parse_govc("C16")
-PROPS["C16"]["bounded"] += parse_bounded("C16", 4, 5)
+PROPS["C16"]["bounded"] += parse_bounded("C16", 3, 4)
 PROPS["C16"]["extra"].append(extra_parametric_parser)
 PROPS["C16"]["assumptions"] = SCAN_ASSUME + PARSE_ASSUME
 PROPS["C16"]["trusted_base"] = PARSE_TRUSTED
@@ -384,3 +384,51 @@ PROPS["C11"] = {
     "technique": "contract-based verification, frame/inventory obligations: every source of nondeterminism reachable in the generator (concurrency, ambient inputs, each range over a map) is an obligation discharged against a committed inventory by mechanical shape checks over go/ast+go/types",
     "explanation": "Deductive treatment of the sources of nondeterminism: no goroutine/channel/sync/time/rand/env use in the module; each of the 20 ranges over maps is classified (sorted-before-use, commutative insert, constant search, diagnostic sink, empty by construction) and the classification is re-checked mechanically on every run, so a new unsorted map range, a removed sort, or a goroutine leaves an undischarged obligation naming the loop. Repeated gocc runs with different GOMAXPROCS are a bounded cross-check and the search for a concrete differing pair.",
 }
+
+
+PROPS["C01"] = {
+    "level": "other",
+    "prepare": prepare_expand,
+    "govc": [{"dir": "{gen}/" + c, "pkgs": ["./lexer"], "contracts": [STDLIB, LEXGEN_CONTRACTS], "prop": "C01"} for c in ("lexonly", "recover")],
+    "bounded": scan_bounded("C01"),
+    "extra": [extra_parametric_lexer],
+    "trusted_base": COMMON_TRUSTED + ["text/template expansion (the expanded lexer package is what is verified)"],
+    "assumptions": SCAN_ASSUME + ["Live and IgnChain are inductive predicates given by introduction rules only (sound for the least fixed point)"],
+    "explanation": "Run-time half, proved for arbitrary WF_lex tables and arbitrary byte strings (ill-formed UTF-8 included): one Scan call skips a chain of ignored lexemes each taken as soon as it is complete, then follows the DFA run from state 0 for as long as a transition exists and returns the verdict of the last state (token with exactly that text; INVALID, consuming the rune that killed the run, when the last state has no verdict or no rune could be read), and EOF for ever once the input is exhausted. Generator half (the emitted DFA is the automaton of the lexical rules: subset construction, priorities, '.' semantics, regular definitions): bounded sweep against an independent reference automaton, labelled bounded.",
+}
+
+
+def sweep_tool(run, tool, srcdir, args_extra=()):
+    """runs a sweep tool (lexref / lrref) against gocc built from the working tree; returns its JSON"""
+    import common as C, expand, json, os
+    gocc = expand.build_gocc(run)
+    exe = C.ensure_tool(tool, srcdir)
+    out = os.path.join(run.work, "%s-%s.json" % (tool, run.tier))
+    cmd = [exe, "sweep", "-gocc", gocc, "-scope", run.tier, "-seed", str(run.seed), "-out", out] + list(args_extra)
+    env = dict(C.GOENV, TMPDIR=run.work)
+    rc, o = C.sh(cmd, cwd=run.work, env=env, timeout=6 * 3600)
+    if not os.path.exists(out):
+        raise C.EngineError("%s sweep failed (rc=%d):\n%s" % (tool, rc, o[-2000:]))
+    r = json.load(open(out))
+    r["cmd"] = " ".join(cmd)
+    return r
+
+
+def lexref_sweep(kinds):
+    def f(run):
+        r = sweep_tool(run, "lexref", "tools/lexref")
+        viol = []
+        for x in r.get("fails") or []:
+            is_timeout = x["kind"] == "timeout"
+            if ("timeout" in kinds) != is_timeout and not ("timeout" in kinds and "other" in kinds):
+                if is_timeout != ("timeout" in kinds):
+                    continue
+            viol.append({"id": "lexref %s/%s case %s" % (x["kind"], x.get("family"), x["id"]), "case_id": x["id"], "what": x.get("msg"), "kind": x["kind"], "family": x.get("family"),
+                         "input": {"grammar": x["grammar"], "witness_input_hex": x.get("witness_input_hex"), "tool": "lexref", "case": x["id"]}})
+        return {"name": "LEX sweep: emitted DFA bisimilar to the reference automaton of the lexical rules (bounded over grammars, all inputs)", "cases": r["cases"], "evaluations": r["cases"],
+                "scope": {k: r.get(k) for k in ("scope", "scope_cases_per_stratum", "with_regdefs", "scope_nullable_body_skipped", "timeouts")}, "violations": viol,
+                "samples": (r.get("samples") or [])[:4] if isinstance(r.get("samples"), list) else [], "cmd": r["cmd"], "label": "bounded - never counted as proved"}
+    return f
+
+
+PROPS["C01"]["extra"].append(lexref_sweep(("bisim", "wf", "parse", "gocc-error", "other")))
